@@ -12,15 +12,17 @@ Inductive bobs :=
 | OExpire (was_armed : bool)                   (* the callback now set on the timer is committed to run (late callback regime) *)
 | ODeliver (i : N) (armgen : N) (tok : Z).     (* the i-th committed callback ran and sent tok; it had been set when armgen
                                                   non-empty batches had been handed out *)
-Inductive stim := SAdd (x : N) | SFlush | SFire (was_armed : bool) | SHoldA | SHoldT | SRelease | SComplete (k : N) | SFail (k : N) (mode : N) | SRead.
-(* SFail k mode: the k-th running fetch returns an error, with no results (mode 0), the first half (1) or all of them (2) *)
+Inductive stim := SAdd (x : N) (cancelled : bool) | SFlush (cancelled : bool) | SFire (was_armed : bool) | SHoldA | SHoldT | SRelease | SComplete (k : N) | SFail (k : N) (mode : N) | SRead.
+(* SAdd / SFlush carry the state of the context the call is made with (true = already cancelled).
+   SFail k mode: the k-th running fetch returns an error, with no results (mode 0), the first half (1) or all of them (2) *)
 Definition robs := (bool * bool * bool * N * N)%type.   (* adder call unfinished, adder held, time-out flusher held, fetches running, |Output| *)
 Definition rstep := (stim * robs)%type.
 
 Inductive case :=
 | BCase (max : N) (delay : bool) (ops : list bobs)
 | RCase (max : N) (delay : bool) (buf : N) (steps : list rstep) (added out : list N) (fetched : list (list N))
-        (fails : list (N * N)) (errs : list N) (settled : bool)   (* fails: (first item of a failed batch, mode); errs: first items, in the order the errors arrived *)
+        (fails : list (N * N)) (errs : list N) (ctxs : list (N * bool)) (settled : bool)   (* fails: (first item of a failed batch, mode); errs: first items, in the order the errors arrived;
+     ctxs: per batch handed to FetchBatch (first item, the context it received was cancelled), in item order *)
 | HCase (nadders per : N) (batches : list (list (N * N))).
 
 Fixpoint list_eqb {A} (eqb : A -> A -> bool) (a b : list A) : bool :=
@@ -175,8 +177,8 @@ Definition sort_running (l : list (nat * N)) := fold_right ins [] l.
 Definition apply_stim (fails : list (N * N)) (p : rparams) (st : stim) (m : mstate) : option mstate :=
   let s := ms m in
   match st with
-  | SAdd x => if adder_free s then Some (with_ms m (set_script [AddOp x] s)) else None
-  | SFlush => if adder_free s then Some (with_ms m (set_script [FlushOp] s)) else None
+  | SAdd x _ => if adder_free s then Some (with_ms m (set_script [AddOp x] s)) else None
+  | SFlush _ => if adder_free s then Some (with_ms m (set_script [FlushOp] s)) else None
   | SFire a =>
       match timer_fire s with
       | Some s' => if a && pc_idle (tpc s) && Nat.eqb (inflight s) 0 then Some (with_ms m s') else None
@@ -219,17 +221,39 @@ Definition completed_by (st : stim) (m : mstate) : list (list N) :=
   | _ => []
   end.
 
-Fixpoint rreplay (fails : list (N * N)) (p : rparams) (steps : list rstep) (m : mstate) (done : list (list N))
-  : bool * mstate * list (list N) :=
+(* per-call contexts (ghost, as c_step of Model/Reorder.v): the flag of the adder's call in progress, and for every batch handed
+   out the flag its FetchBatch receives - the triggering call's for the adder, live for the time-out goroutine *)
+Record cm := mkCM { cm_m : mstate; cm_cur : bool; cm_log : list bool }.
+Definition upd (c : cm) (m' : mstate) (flag : bool) : cm :=
+  mkCM m' (cm_cur c)
+       (cm_log c ++ if Nat.ltb (length (flushed (ms (cm_m c)))) (length (flushed (ms m'))) then [flag] else []).
+Fixpoint stabilise_c (fuel : nat) (p : rparams) (c : cm) : cm :=
+  match fuel with
+  | O => c
+  | S fuel' =>
+      match try_adder p (cm_m c) with
+      | Some m' => stabilise_c fuel' p (upd c m' (cm_cur c))
+      | None =>
+          match try_timeout p (cm_m c) with
+          | Some m' => stabilise_c fuel' p (upd c m' false)
+          | None => match try_drain (cm_m c) with Some m' => stabilise_c fuel' p (upd c m' false) | None => c end
+          end
+      end
+  end.
+
+Fixpoint rreplay (fails : list (N * N)) (p : rparams) (steps : list rstep) (c : cm) (done : list (list N))
+  : bool * cm * list (list N) :=
   match steps with
-  | [] => (true, m, done)
+  | [] => (true, c, done)
   | (st, o) :: r =>
+      let m := cm_m c in
       match apply_stim fails p st m with
-      | None => (false, m, done)
+      | None => (false, c, done)
       | Some m1 =>
-          let m2 := stabilise 400 p m1 in
+          let cur := match st with SAdd _ f | SFlush f => f | _ => cm_cur c end in
+          let c2 := stabilise_c 400 p (mkCM m1 cur (cm_log c)) in
           let done' := done ++ completed_by st m in
-          if robs_eqb (observe m2) o then rreplay fails p r m2 done' else (false, m2, done')
+          if robs_eqb (observe (cm_m c2)) o then rreplay fails p r c2 done' else (false, c2, done')
       end
   end.
 
@@ -266,17 +290,19 @@ Definition check_case (c : case) : list N :=
       bcheck (mkBP max delay) ops b_init [] ++
       (if nlist_eqb (b_handed ops) (b_added ops) then [] else [12]) ++
       (if stale_ok ops 0 [] [] then [] else [13])
-  | RCase max delay buf steps added_o out_o fetched fails errs settled =>
+  | RCase max delay buf steps added_o out_o fetched fails errs ctxs settled =>
       let p := mkRP (mkBP max delay) buf true in
-      let r := rreplay fails p steps m_init [] in
+      let r := rreplay fails p steps (mkCM m_init false []) [] in
       let ok := fst (fst r) in
-      let s := ms (snd (fst r)) in
+      let s := ms (cm_m (snd (fst r))) in
+      let model_ctxs := combine (map (hd 0) (flushed s)) (cm_log (snd (fst r))) in
       let model_errs := map (hd 0) (filter (failed (fetchF fails)) (snd r)) in
       let failed_first := map (hd 0) (filter (failed (fetchF fails)) fetched) in
       (if ok then [] else [4]) ++
       (if ok then (if nlist_eqb out_o (out s) then [] else [5]) ++
                   (if list_eqb nlist_eqb fetched (flushed s) then [] else [6]) ++
-                  (if nlist_eqb errs model_errs then [] else [7])
+                  (if nlist_eqb errs model_errs then [] else [7]) ++
+                  (if list_eqb (fun a b => (fst a =? fst b) && Bool.eqb (snd a) (snd b)) ctxs model_ctxs then [] else [8])
        else []) ++
       (* spec, from the observations alone: every batch handed to FetchBatch contributes exactly what FetchBatch returned
          for it (failed or not), in input order - nothing of another batch is lost or held up by a failure *)
